@@ -36,10 +36,14 @@ import (
 // built file system.
 
 type tarCase struct {
-	Kind    string   `json:"kind"` // fs | e2e
+	Kind    string   `json:"kind"` // fs | e2e | multi (suite_tar_glue.go)
 	Backend string   `json:"backend,omitempty"`
 	Ops     []fsOp   `json:"ops,omitempty"` // fsOp of suite_fs.go, plus K=bigfile (P path, O seed, M size, N perm)
 	Img     *ImgCase `json:"img,omitempty"`
+	// e2e: the packages are (also) served by a repository that is used at build time only: "config" lists it under
+	// contents.build_repositories, "append" passes it like --build-repository-append, "runtime-append" adds a second
+	// runtime repository like --repository-append
+	BuildRepos string `json:"build_repos,omitempty"`
 }
 
 type tarSuite struct{}
@@ -468,7 +472,25 @@ func runTarE2ECase(c tarCase) []Step {
 	os.MkdirAll(filepath.Join(work, "tmp"), 0o755)
 	opts := []build.Option{build.WithImageConfiguration(ic), build.WithBuildDate(""), build.WithTempDir(filepath.Join(work, "tmp")),
 		build.WithSBOMFormats(nil), build.WithArch(types.ParseArchitecture(archs[0])), build.WithTarball(filepath.Join(work, "layer.tar.gz"))}
+	runtimeRepos := []string{rd}
+	if c.BuildRepos != "" {
+		rd2 := filepath.Join(work, "build-only-repo")
+		repo.WriteTo(rd2)
+		switch c.BuildRepos {
+		case "config":
+			ic.Contents.BuildRepositories = []string{rd2}
+			opts[0] = build.WithImageConfiguration(ic)
+		case "append":
+			opts = append(opts, build.WithExtraBuildRepos([]string{rd2}))
+		case "runtime-append":
+			opts = append(opts, build.WithExtraRuntimeRepos([]string{rd2}))
+			runtimeRepos = append(runtimeRepos, rd2)
+		}
+	}
 	desc := fmt.Sprintf("e2e: %d packages, world %v, %d path mutations, %d users", len(img.Pkgs), ic.Contents.Packages, len(ic.Paths), len(ic.Accounts.Users))
+	if c.BuildRepos != "" {
+		desc += ", second repository: " + c.BuildRepos
+	}
 	tfs := tarfs.New()
 	bc, err := build.New(ctx, tfs, opts...)
 	if err != nil {
@@ -495,10 +517,14 @@ func runTarE2ECase(c tarCase) []Step {
 	pw, _ := built.ReadFile("etc/passwd")
 	gr, _ := built.ReadFile("etc/group")
 	tags = append(tags, "e2e", fmt.Sprintf("entries:%d", strings.Count(entries, ";")/10*10))
+	if c.BuildRepos != "" {
+		tags = append(tags, "e2e:second-repo:"+c.BuildRepos)
+	}
 	sort.Strings(tags)
 	return []Step{
 		{Line: "tar.check\t" + entries + "\t" + obs + "\t" + hx(string(pw)) + "\t" + hx(string(gr)), Go: "-", Desc: desc, Mode: "verdict", NoImpl: true, Tags: compactStrings(tags)},
 		{Line: "tar.digest", Go: dv, Desc: "digest/diffid/size of " + desc, Mode: "oracle-go", GoSpec: dv, NoImpl: true, Tags: []string{"digest:" + strings.SplitN(dv, ":", 2)[0]}, Trivial: true},
+		tarGlueReposStep(raw, built, runtimeRepos, desc),
 	}
 }
 
@@ -509,6 +535,9 @@ func (tarSuite) Run(raw json.RawMessage) []Step {
 	}
 	if c.Kind == "e2e" {
 		return runTarE2ECase(c)
+	}
+	if c.Kind == "multi" {
+		return runTarGlueMultiCase(c)
 	}
 	return runTarFsCase(c)
 }
@@ -789,12 +818,18 @@ func genTarE2ECase(r *Rng) tarCase {
 		}
 	}
 	c := tarCase{Kind: "e2e", Img: &img}
+	if r.Chance(60) {
+		c.BuildRepos = Pick(r, []string{"config", "config", "append", "runtime-append"})
+	}
 	return c
 }
 
 func (tarSuite) Gen(r *Rng, i int, tier string) any {
 	if i%10 == 9 {
 		return genTarE2ECase(r)
+	}
+	if i%20 == 4 {
+		return genTarGlueMultiCase(r)
 	}
 	return genTarFsCase(r, i%40 == 7)
 }
